@@ -1,6 +1,6 @@
 (* C20 — Surfaces are total, bounded, deterministic folds over the frame stream.
    Statements only; proofs are in Proofs/TuiProofs.v.  Every theorem is closed by `exact`. *)
-From RipV Require Import Base.Prelude Model.Tui Proofs.TuiProofs.
+From RipV Require Import Base.Prelude Model.Tui Proofs.TuiProofs Model.Headless Proofs.HeadlessProofs.
 
 (* memory bounds after ANY frame sequence (any order, gaps, repeats, mixed streams, any capacities) *)
 Theorem c20_bounds : forall (max_frames : nat) (max_out : N) (af : bool) (evs : list ev),
@@ -58,6 +58,31 @@ Theorem c20_unchecked_lookup_refuted :
   exists fs m q f, fs_get_by_seq_unchecked (fold_left fs_push fs (fs_new m)) q = Some f /\ fseq f <> q.
 Proof. exact lookup_unchecked_refuted. Qed.
 Print Assumptions c20_unchecked_lookup_refuted.
+
+(* headless Output view (rip-cli render_message): for EVERY frame sequence, what is printed up to the
+   first session_ended is exactly the concatenation of the text deltas, plus one newline when the
+   text does not end with one; frames after the end never matter *)
+Theorem c20_headless_output_is_deltas : forall (pre rest : list hk),
+  forallb (fun k => negb (is_ended k)) pre = true -> existsb is_delta pre = true ->
+  headless_output (pre ++ HEnded :: rest) = deltas pre ++ (if ends_nl (deltas pre) then [] else [10]).
+Proof. exact headless_output_is_deltas. Qed.
+Print Assumptions c20_headless_output_is_deltas.
+
+Theorem c20_headless_ignores_after_end : forall (pre rest1 rest2 : list hk),
+  forallb (fun k => negb (is_ended k)) pre = true ->
+  headless_output (pre ++ HEnded :: rest1) = headless_output (pre ++ HEnded :: rest2).
+Proof. exact headless_ignores_after_end. Qed.
+Print Assumptions c20_headless_ignores_after_end.
+
+Theorem c20_headless_fallback_starts_with_tool_stdout : forall (pre rest : list hk),
+  forallb (fun k => negb (is_ended k)) pre = true -> existsb is_delta pre = false ->
+  exists tail, headless_output (pre ++ HEnded :: rest) = stdouts pre ++ tail.
+Proof. exact headless_fallback_starts_with_tool_stdout. Qed.
+Print Assumptions c20_headless_fallback_starts_with_tool_stdout.
+
+Example c20_headless_demo :
+  headless_output [HToolStdout [120]; HDelta [104; 105]; HOther; HDelta []; HEnded; HDelta [33]] = [104; 105; 10].
+Proof. exact headless_demo. Qed.
 
 (* non-vacuity *)
 Example c20_demo_nontrivial :
